@@ -54,17 +54,7 @@ func verifC23NearEnd(b *LocalBuffer) {
 	b.readBufPos = b.writeBufPos
 }
 
-func verifEqBytes(a, b []byte) bool {
-	if len(a) != len(b) {
-		return false
-	}
-	for i := range a {
-		if a[i] != b[i] {
-			return false
-		}
-	}
-	return true
-}
+func verifEqBytes(a, b []byte) bool { return v.EqBytes(a, b) }
 
 func verifC23Check(b *LocalBuffer, it verifItem, what string) {
 	h, typ, size, v4, aux, errno, ok := b.Next()
